@@ -452,6 +452,15 @@ impl Report
 	}
 	
 	
+	/// Verification hook: read-only access to the structured
+	/// message list (file handle, byte range, kind, text, nested messages).
+	#[cfg(hlorenzi_customasm_verif)]
+	pub fn verif_messages(&self) -> &[Message]
+	{
+		&self.messages
+	}
+	
+	
 	pub fn len(&self) -> usize
 	{
 		self.messages.len()
